@@ -48,7 +48,29 @@ impl Prop for C04 {
                 }
             }
         }
-        let core: Vec<Expr> = q.iter().take(tier.pick(12, 15)).cloned().collect();
+        // thorough: every triple over the whole quantity list, and quadruples over a 10-quantity core
+        let core: Vec<Expr> = q.iter().take(tier.pick(12, q.len())).cloned().collect();
+        if tier == Tier::Thorough {
+            let c4: Vec<Expr> = q.iter().take(10).cloned().collect();
+            let ops = [Op::Mul, Op::Div];
+            for a in &c4 {
+                for b in &c4 {
+                    for c in &c4 {
+                        for d in &c4 {
+                            for o1 in ops {
+                                for o2 in ops {
+                                    for o3 in ops {
+                                        emit("quad", &bin(paren(bin(paren(bin(a.clone(), o1, b.clone())), o2, c.clone())), o3, d.clone()), sink);
+                                        emit("quad", &bin(a.clone(), o1, paren(bin(b.clone(), o2, paren(bin(c.clone(), o3, d.clone()))))), sink);
+                                        emit("quad", &bin(paren(bin(a.clone(), o1, b.clone())), o2, paren(bin(c.clone(), o3, d.clone()))), sink);
+                                    }
+                                }
+                            }
+                        }
+                    }
+                }
+            }
+        }
         for a in &core {
             for b in &core {
                 for c in &core {
@@ -61,8 +83,9 @@ impl Prop for C04 {
                 }
             }
         }
+        let pmax = tier.pick(3i64, 6i64);
         for a in &q {
-            for n in -3..=3i64 {
+            for n in -pmax..=pmax {
                 emit("power", &bin(paren(a.clone()), Op::Pow, num(&n.to_string())), sink);
                 // power equals repeated multiplication: also as a product of powers
                 emit("power", &bin(paren(bin(paren(a.clone()), Op::Pow, num(&n.to_string()))), Op::Mul, a.clone()), sink);
@@ -85,11 +108,11 @@ impl Prop for C04 {
         }
         // one unit under two prefixes and two powers on either side of * and / (in particular
         // pairs with equal prefix x power: km^2 vs Mm, cm^3 vs mm^2, dm^3 vs mm)
-        let pfx = ["", "k", "G", "c", "m", "d", "n"];
+        let pfx: Vec<&str> = if tier == Tier::Thorough { std::iter::once("").chain(tables::PREFIXES.iter().map(|p| p.0)).collect() } else { vec!["", "k", "G", "c", "m", "d", "n"] };
         for u in ["m", "s", "g"].iter().take(tier.pick(2, 3)) {
-            for p1 in pfx {
+            for p1 in pfx.iter().copied() {
                 for n1 in 1..=3i64 {
-                    for p2 in pfx {
+                    for p2 in pfx.iter().copied() {
                         for n2 in 1..=3i64 {
                             let (w1, w2) = (format!("{p1}{u}"), format!("{p2}{u}"));
                             if [&w1, &w2].iter().any(|w| w.len() > 1 && (crate::units::readings(w).len() != 1 || tables::find_by_name(w).is_some())) {
@@ -150,6 +173,6 @@ impl Prop for C04 {
         exprcheck::verdict(env.db(), &e, true)
     }
     fn bounds(&self, tier: Tier) -> serde_json::Value {
-        serde_json::json!({"quantities": 55, "triple_core": tier.pick(12, 15), "powers": "-3..3"})
+        serde_json::json!({"quantities": 55, "triple_core": tier.pick(12, quants().len()), "quadruple_core": tier.pick(0, 10), "powers": tier.pick("-3..3", "-6..6")})
     }
 }
